@@ -1,6 +1,7 @@
 #!/bin/bash
 # Applies each behaviour-preserving refactoring under $1 (dirs N*/<k>/patch.diff) to a scratch worktree and runs every check: any VIOLATION is a false alarm.
 W=${SCRATCH:-/tmp/w0}
+[ $# -eq 0 ] && set -- /verif/neutral/*/patch.diff
 for p in "$@"; do
   git -C "$W" checkout -q --detach "$(git -C /repo rev-parse HEAD)" && git -C "$W" checkout -q -- . && git -C "$W" clean -qfd
   if ! git -C "$W" apply "$p" 2>/dev/null; then echo "$p: PATCH-DOES-NOT-APPLY"; continue; fi
